@@ -58,8 +58,8 @@ func stdSet(n *chainkit.Net) *sigSet {
 	return &sigSet{name: "std", accs: slices.Clone(n.Validators), m: smartcontract.GetDefaultHonestNodeCount(len(n.Validators))}
 }
 
-func (s *sigSet) script() []byte        { return s.accs[0].Contract.Script }
-func (s *sigSet) hash() util.Uint160    { return s.accs[0].Contract.ScriptHash() }
+func (s *sigSet) script() []byte         { return s.accs[0].Contract.Script }
+func (s *sigSet) hash() util.Uint160     { return s.accs[0].Contract.ScriptHash() }
 func (s *sigSet) signer() neotest.Signer { return neotest.NewMultiSigner(slices.Clone(s.accs)...) }
 
 // sigs returns the individual signatures (in public key order) of all members.
@@ -217,12 +217,12 @@ var nonceCtr uint32 = 0x60000000
 
 type txOpt struct {
 	vub      *uint32 // absolute; nil = height+10
-	sysFee   int64  // 0 = 0.02 GAS
-	extraNet int64  // added to the computed network fee (may be negative)
-	netFee   *int64 // absolute override
+	sysFee   int64   // 0 = 0.02 GAS
+	extraNet int64   // added to the computed network fee (may be negative)
+	netFee   *int64  // absolute override
 	attrs    []transaction.Attribute
 	script   []byte
-	more     []neotest.Signer // further signers after the sender
+	more     []neotest.Signer               // further signers after the sender
 	mutate   func(*transaction.Transaction) // applied AFTER signing (breaks whatever it touches)
 }
 
